@@ -181,6 +181,14 @@ class Check:
             print('  key=%s  %s' % (key, vs[0].what))
         code = 1 if new else 0
         ninc = len(t.inconclusive)
+        for i, inc in enumerate(t.inconclusive[:20]):
+            if isinstance(inc, dict) and inc.get('case'):
+                os.makedirs(rdir, exist_ok=True)
+                p = os.path.join(rdir, 'inconclusive-%s.json' % h64(json.dumps(inc['case'], sort_keys=True))[:8])
+                with open(p, 'w') as f:
+                    json.dump(dict(property=self.prop, seed=self.seed, key='inconclusive', what=inc['what'], case=inc['case']), f, indent=1)
+                t.inconclusive[i] = '%s (case: %s)' % (inc['what'], p)
+        t.inconclusive = [x if isinstance(x, str) else x.get('what') for x in t.inconclusive]
         harness_bad = []
         if self.errors:
             harness_bad.append('%d job(s) raised: %s' % (len(self.errors), self.errors[0][-1500:]))
@@ -255,7 +263,7 @@ class Session:
         self.close()
 
     def call(self, variant, op, fmt=0, ext=0, lang=0, flags=0, args=(), what='', history=None, crash_is_violation=True,
-             hang_is_violation=False):
+             hang_is_violation=False, exit_is_violation=False):
         """Returns Reply, or None if the worker crashed/hung (recorded as violation or inconclusive).
         history: list of earlier request-json dicts needed to reproduce (for stateful sequences)."""
         d = self.driver(variant)
@@ -283,13 +291,15 @@ class Session:
                 if hang_is_violation:
                     self.r.violate('hang@op%s' % op, 'no reply within %ss, reproduced alone %s' % (self.timeout * 10, what), case)
                 else:
-                    self.r.inconclusive.append('hang op%s %s' % (op, what))
+                    self.r.inconclusive.append(dict(what='hang op%s %s' % (op, what), case=case))
                 return None
             except D.Crash as c:
                 if crash_is_violation:
                     self.r.violate(c.key, 'worker died (%s) %s' % (c.key, what), case, c.report)
                 return None
         if rep.status == D.ST_EXIT:
+            self.r.stats['library-called-exit'] += 1
+        if rep.status == D.ST_EXIT and exit_is_violation:
             self.r.violate('exit-called@op%s' % op, 'library called exit(): %s %s' % (rep.diag, what), case, rep.stderr.decode(errors='replace'))
         elif rep.status == D.ST_PROBE:
             self.r.violate('probe:' + rep.diag.split(';')[0], 'returned object probe failed: %s %s' % (rep.diag, what), case)
